@@ -186,6 +186,7 @@ func checkC12(c *Ctx) {
 	// ---- 5b. the wrapped sink fails: prefix of the accepted stream, clean Sync/Stop acknowledge everything
 	if stage("fault") {
 		runBwsFault(c, "C12")
+		bwsSinkExclusion(c)
 	}
 
 	// ---- 6. crash points: SIGKILL a child writing through BWS to a file
